@@ -47,7 +47,8 @@ def dds_hash_commut(i: List[Tuple[HashKey, PyHash]]) -> Optional[PyHash]:
 
 
 def _algo_str(s: str) -> PyHash:
-    return _algo_bytes(s.encode("utf-8"))
+    # surrogatepass: strings with lone surrogates are valid python strings, they must be hashable too.
+    return _algo_bytes(s.encode("utf-8", "surrogatepass"))
 
 
 def _algo_bytes(b: bytes) -> PyHash:
@@ -76,7 +77,7 @@ def dds_hash(x: Any) -> PyHash:
         return ".".join([str(i) if not isinstance(i, str) else i for i in list(trace)])
 
     def check_len(x: Any) -> None:
-        if len(x) > max_sequence_size:
+        if max_sequence_size is not None and len(x) > max_sequence_size:
             raise DDSException(
                 f"Object of type {type(x)} is a sequence of length {len(x)}. "
                 f"Only sequences of length less than {max_sequence_size} are supported. "
@@ -110,7 +111,11 @@ def dds_hash(x: Any) -> PyHash:
         if isinstance(elt, float):
             return _algo_bytes(struct.pack("!d", elt))
         if isinstance(elt, int):
-            return _algo_bytes(struct.pack("!l", elt))
+            if -(2 ** 31) <= elt < 2 ** 31:
+                return _algo_bytes(struct.pack("!l", elt))
+            # Integers that do not fit in 32 bits. The leading byte is never found in a UTF-8 string,
+            # so this representation cannot be confused with the one of a string.
+            return _algo_bytes(b"\xff__DDS_BIGINT__" + format(elt, "x").encode("ascii"))
         if isinstance(elt, CanonicalPath):
             return _algo_str(repr(elt))
         if isinstance(elt, list):
